@@ -322,7 +322,7 @@ type PathCfg struct {
 	// ConsistentFields: boolean struct fields whose value is assumed not to change along one path.
 	ConsistentFields map[*types.Var]bool
 	// Stop: blocks at which a path ends with End="stop" (not entered).
-	Stop        func(b *ssa.BasicBlock) bool
+	Stop func(b *ssa.BasicBlock) bool
 	// EmitCut: also report the paths that were cut at the back-edge bound (End "cut").
 	EmitCut bool
 	// Arith: evaluate integer +, - on known constants (loop counters become concrete per iteration).
@@ -481,7 +481,7 @@ func (en *enumerator) evalConst(v ssa.Value, env *penv) constant.Value {
 		}
 	case *ssa.BinOp:
 		if x.Op == token.EQL || x.Op == token.NEQ {
-			if cy, ok := x.Y.(*ssa.Const); ok && cy.IsNil() && env.notNil[resolvePhi(x.X, env)] {
+			if cy, ok := x.Y.(*ssa.Const); ok && cy.IsNil() && (env.notNil[resolvePhi(x.X, env)] || certainlyNonNil(resolvePhi(x.X, env))) {
 				return constant.MakeBool(x.Op == token.NEQ)
 			}
 			rx, ry := resolvePhi(x.X, env), resolvePhi(x.Y, env)
@@ -539,6 +539,35 @@ func resolvePhi(v ssa.Value, env *penv) ssa.Value {
 				return v
 			}
 			v = a
+		case *ssa.FreeVar:
+			a, ok := env.vals[x]
+			if !ok {
+				return v
+			}
+			v = a
+		case *ssa.UnOp:
+			// the value of a captured variable that is assigned exactly once (a parameter of the
+			// enclosing function that a closure uses): what was stored into its cell
+			if x.Op != token.MUL {
+				return v
+			}
+			fv, ok := x.X.(*ssa.FreeVar)
+			if !ok {
+				return v
+			}
+			cell, ok := env.vals[fv]
+			if !ok {
+				return v
+			}
+			al, ok := cell.(*ssa.Alloc)
+			if !ok {
+				return v
+			}
+			cvv := cellValue(al)
+			if cvv == nil {
+				return v
+			}
+			v = cvv
 		case *ssa.Extract:
 			call, ok := x.Tuple.(*ssa.Call)
 			if !ok {
@@ -762,6 +791,31 @@ func (en *enumerator) walk(fn *ssa.Function, b *ssa.BasicBlock, pred *ssa.BasicB
 							cenv.vals = map[ssa.Value]ssa.Value{}
 						}
 						cenv.vals[p] = resolvePhi(args[pi], env)
+					}
+				}
+				// a closure: its captured variables are the cells (or values) it was created with
+				if len(callee.FreeVars) > 0 {
+					var mc *ssa.MakeClosure
+					cands := []ssa.Value{resolvePhi(x.Call.Value, env)}
+					for _, a := range x.Call.Args {
+						cands = append(cands, resolvePhi(a, env))
+					}
+					for _, cv := range cands {
+						if m, ok := strip(cv).(*ssa.MakeClosure); ok && m.Fn == ssa.Value(callee) {
+							mc = m
+						} else if m, ok := cv.(*ssa.MakeClosure); ok && m.Fn == ssa.Value(callee) {
+							mc = m
+						}
+					}
+					if mc != nil {
+						if cenv.vals == nil {
+							cenv.vals = map[ssa.Value]ssa.Value{}
+						}
+						for fi, fv := range callee.FreeVars {
+							if fi < len(mc.Bindings) {
+								cenv.vals[fv] = resolvePhi(mc.Bindings[fi], env)
+							}
+						}
 					}
 				}
 				savedDefers := cenv.defers
@@ -1015,4 +1069,24 @@ func (en *enumerator) calleeToInline(cc *ssa.CallCommon) (*ssa.Function, []ssa.V
 		return f, cc.Args
 	}
 	return nil, nil
+}
+
+// certainlyNonNil: v is an error (or other interface) value that was just constructed.
+func certainlyNonNil(v ssa.Value) bool {
+	switch x := v.(type) {
+	case *ssa.MakeInterface:
+		// a concrete non-pointer value boxed into an interface is never nil; a pointer may be
+		if _, isPtr := x.X.Type().Underlying().(*types.Pointer); !isPtr {
+			return true
+		}
+		if _, isAlloc := x.X.(*ssa.Alloc); isAlloc {
+			return true
+		}
+	case *ssa.Call:
+		switch calleeName(x.Common()) {
+		case "fmt.Errorf", "errors.New":
+			return true
+		}
+	}
+	return false
 }
